@@ -29,7 +29,7 @@ def demo_cmd(d, meta):
     cmd = re.sub(r"\s+\(.*$", "", cmd.strip(), flags=re.S)     # drop trailing prose
     cmd = re.sub(r"^cd\s+\S+\s*&&\s*", "", cmd)                # we set the cwd ourselves
     # make the demo path absolute to this directory
-    cmd = re.sub(r"(/tmp/wt/\w+_out/\d+/|/verif/seeded/[\w-]+/|(?<![\w/])seeded/[\w-]+/)", d.rstrip("/") + "/", cmd)
+    cmd = re.sub(r"(/tmp/wt/\w+_out\d*/\d+/|/verif/seeded/[\w-]+/|(?<![\w/])seeded/[\w-]+/)", d.rstrip("/") + "/", cmd)
     if "demo" in cmd and d not in cmd:
         for f in os.listdir(d):
             if f.startswith("demo"):
